@@ -279,9 +279,14 @@ def r04d(ctx):
         for r in walk_no_nested(f.node):
             if isinstance(r, ast.Return) and r.value is not None and self_attr(r.value):
                 cached.add(self_attr(r.value))
-        stores = [s for s in walk_no_nested(f.node) if isinstance(s, ast.Assign) and self_attr(s.targets[0]) in cached]
-        for s in stores:
-            a = self_attr(s.targets[0])
+        # stores into the cache: in bounds() itself (also as one target of a chained assignment, `total = self._cost = sum(..)`)
+        # and in the methods of the class it calls (`return self._remember_cost(total)`)
+        from ..astx import class_helpers
+        region = class_helpers(m, f.cls, f, depth=1) if f.cls else [f]
+        stores = [(g_, s) for g_ in region for s in walk_no_nested(g_.node) if isinstance(s, ast.Assign) and any(self_attr(t_) in cached for t_ in s.targets)
+                  and g_.node.name not in ("tighten_bounds", "__init__")]
+        for g_, s in stores:
+            a = next(self_attr(t_) for t_ in s.targets if self_attr(t_) in cached)
             if isinstance(s.value, ast.Constant) and s.value.value is None:
                 continue
             n += 1
@@ -292,8 +297,18 @@ def r04d(ctx):
                 continue
             facts = flatten_conditions(dominating_conditions(s))
             vtxt = ast.unparse(v)
-            ok = any(pol and isinstance(t, ast.Call) and isinstance(t.func, ast.Attribute) and t.func.attr == "definitive"
-                     and ast.unparse(t.func.value) == vtxt for t, pol in facts)
+            names_ = {vtxt} | {t_.id for t_ in s.targets if isinstance(t_, ast.Name)}
+
+            def established(facts_, texts):
+                return any(pol and isinstance(t, ast.Call) and isinstance(t.func, ast.Attribute) and t.func.attr == "definitive"
+                           and ast.unparse(t.func.value) in texts for t, pol in facts_)
+            ok = established(facts, names_)
+            if not ok and g_ is not f and isinstance(v, ast.Name) and v.id in func_params(g_.node):
+                # the helper stores its parameter: every call in bounds() hands it a value established definitive there
+                k_ = func_params(g_.node).index(v.id) - 1
+                sites = [c for c in walk_no_nested(f.node) if isinstance(c, ast.Call) and self_attr(c.func) == g_.node.name]
+                ok = bool(sites) and all(0 <= k_ < len(c.args) and established(flatten_conditions(dominating_conditions(c)), {ast.unparse(c.args[k_])})
+                                         for c in sites)
             if ok:
                 ctx.proved("R04d", f.file, f.short, s, f"self.{a} = {vtxt}", f"cached only under {vtxt}.definitive()")
             else:
